@@ -17,6 +17,7 @@ for id in $seeds; do
   code=$?
   nviol=$(echo "$out" | grep -c "^VIOLATION")
   first=$(echo "$out" | grep "^VIOLATION" | head -2 | sed 's/.*replay=[^ ]*\///' | tr '\n' ' ')
-  echo "$id $prop exit=$code violations=$nviol $first"
+  status=$(python3 -c "import json;print(json.load(open('seeded/$id/meta.json')).get('status',''))")
+  echo "$id $prop exit=$code violations=$nviol $first $status"
   rm -rf "$d"
 done
